@@ -81,7 +81,7 @@ Proof. intros H. unfold with_marks. rewrite unmark_unmarked by exact H. reflexiv
 Lemma refine_known_orig v : is_marked v = false -> is_known v = true -> b_orig (refine v) = v /\ b_marks (refine v) = [].
 Proof.
   intros M K. unfold refine. rewrite unmark_unmarked by exact M.
-  unfold is_known, unmark_force in K. rewrite unmark_unmarked in K by exact M. simpl in K.
+  unfold is_known in K. unfold is_marked in M.
   destruct (vp v) eqn:P; try discriminate; split; reflexivity.
 Qed.
 
